@@ -232,3 +232,97 @@ reg(
     simple("c16"),
     exhaustive={"quick": True, "thorough": True},
 )
+
+
+# ---------------------------------------------------------------------------------------------------------------
+# C20: one monitor binary per feature set of anstyle-parse
+
+FEATURE_SETS = [("none", ""), ("core", "core"), ("core+utf8", "core,utf8"), ("default(utf8)", "utf8")]
+
+
+def build_vfeat(name, feats):
+    import os
+    import shutil
+    td = common.cargo_build(["vfeat"], "release", extra_args=["--no-default-features", "--features", feats] if feats else ["--no-default-features"])
+    src = os.path.join(td, "release", "vfeat")
+    dst_dir = os.path.join(td, "featbins")
+    os.makedirs(dst_dir, exist_ok=True)
+    dst = os.path.join(dst_dir, "vfeat-" + name.replace("+", "_").replace("(", "_").replace(")", ""))
+    shutil.copy2(src, dst)
+    return dst
+
+
+def run_c20(res, tier):
+    import concurrent.futures as cf
+    bins = [(name, build_vfeat(name, feats)) for name, feats in FEATURE_SETS]
+    nsh = 1 if tier == "quick" else 8
+    jobs = []
+    with cf.ThreadPoolExecutor(max_workers=common.THREADS) as ex:
+        for name, b in bins:
+            for sh in range(nsh):
+                jobs.append((name, sh, ex.submit(common.run_json, [b, tier, str(common.SEED), str(sh), str(nsh)], _timeout(tier))))
+        results = [(name, sh, f.result()) for name, sh, f in jobs]
+    hashes = {}
+    for name, sh, d in results:
+        lane = {
+            "lane": "features=%s shard=%d" % (name, sh),
+            "verdict": "held" if d["violation_count"] == 0 else "violated",
+            "evaluations": d["evaluations"],
+            "distinct_nontrivial": d["distinct_nontrivial"],
+            "observed": {k: d[k] for k in ("features", "streams_with_osc_within_cap", "streams_with_truncated_osc", "log_hash_small")},
+        }
+        res.lanes.append(lane)
+        res.evaluations += d["evaluations"]
+        if name == FEATURE_SETS[0][0]:
+            res.distinct += d["distinct_nontrivial"]  # the four builds see the same inputs
+        for s in d.get("samples", []):
+            if name == FEATURE_SETS[0][0] and len(res.samples) < 8:
+                res.samples.append(s)
+        for v in d.get("violations", [])[:1]:
+            res.violations.append({
+                "sig": "c20:events:%s" % name, "count": d["violation_count"], "check": "c20", "lane": lane["lane"],
+                "example": {"msg": "[features %s] %s" % (name, v["msg"]), "case": {"kind": "c20", "features": name, "bytes_hex": [v["input_hex"]], "nums": []}},
+            })
+        hashes.setdefault(sh, {})[name] = d["log_hash_small"]
+    for sh, h in hashes.items():
+        if len(set(h.values())) != 1:
+            res.violation("c20:configurations-differ", "event logs of the streams whose OSC payloads fit the fixed buffer differ between feature sets (shard %d): %s" % (sh, h), check="c20")
+    res.exhaustive_parts.append("all 101 x 21 oversize OSC shapes (payload 1000..1100 bytes x 0..20 separators), in every feature set")
+
+
+def replay_c20(doc):
+    case = doc["case"]
+    name = case.get("features") or FEATURE_SETS[0][0]
+    feats = dict(FEATURE_SETS).get(name, "")
+    b = build_vfeat(name, feats)
+    d = common.run_json([b, "replay", case["bytes_hex"][0]], 600, ok_codes=(0, 1))
+    return None if d.get("replay") == "held" else d
+
+
+reg(
+    "C20",
+    "Parser feature configurations differ only by their documented limits",
+    "exploration",
+    "cases = 7-bit byte streams (seeded grammar streams folded to 7 bits, plus all 101x21 oversize OSC shapes) fed to a monitor binary "
+    "built once per feature set {none, core, core+utf8, utf8(default)}; each build compares its callbacks event-for-event with RefVt "
+    "(OSC payload cut at 1024 bytes for the fixed-buffer builds) and the event-log hash over all streams whose OSC payloads fit the "
+    "buffer must be identical across the four builds; non-trivial = stream contains an escape sequence; distinct by 64-bit hash, "
+    "counted once (the four builds see the same inputs)",
+    [A_REFVT, "inputs are 7-bit only: without the utf8 feature bytes >= 0x80 in ground are documented as unsupported"],
+    {"run": run_c20, "replay": replay_c20, "replay_case": None},
+)
+
+
+reg(
+    "C08",
+    "AutoStream modes: never strips, always-ansi forwards unchanged",
+    "exploration",
+    "cases = (input, operation sequence over write / write_all / write_vectored / write_fmt / flush, boxed-writer fault script) applied in "
+    "lock-step to AutoStream::new(w, choice) for all four choices, ::never / ::always / ::always_ansi / ::auto, StripStream::new(w) and the "
+    "plain writer, over Vec<u8>, &mut Vec<u8>, Box<dyn Write> (scripted short counts and errors) and File (1 in 50); every call's result, "
+    "current_choice(), is_terminal() and the bytes returned by into_inner() are compared; seeded, distinct by hash of input+ops+script; "
+    "non-trivial = the input contains an escape sequence",
+    [A_REFVT + " (only for the final 'stripped form of what was consumed' comparison)",
+     "the Auto choice is compared with Never only when NO_COLOR / CLICOLOR / CLICOLOR_FORCE are unset in the monitor process (the driver clears them); the environment-dependent part of Auto is C09's subject"],
+    simple("c08"),
+)
